@@ -14,10 +14,11 @@ from fractions import Fraction
 from ..gen import mesh as G
 from ..gen import c03gen as GV
 from . import c03_translate
+from . import c03_source
 
 PID = "C03"
 TITLE = "Volume connectivity answers agree with the cell list"
-LEAN_MODULES = ["Mouette.Props.C03"]
+LEAN_MODULES = ["Mouette.Props.C03", "Mouette.Props.C03Source"]
 REQUIRED_THEOREMS = [
     # translated tables
     "adjTable_eq_model", "subFace_eq_model", "adjTable_row_omits_index", "adjTable_agrees_with_slices",
@@ -42,6 +43,18 @@ REQUIRED_THEOREMS = [
     "walkLoops_eq_model", "edgeMapDomain_eq_model",
     # round 3b
     "boundary_maps_are_instance_state", "instances_isolated", "volume_two_instances_safe",
+    # round 4: bridges Generated (compiled from the bodies of volume.py) = Model
+    "compute_cell_adj_F2C_bridge", "compute_cell_adj_C2F_bridge", "compute_cell_adj_inside", "face_to_cells_bridge", "cell_to_face_bridge",
+    "vertex_to_cell_bridge", "compute_edge_id_E2F_bridge", "compute_edge_id_E2C_bridge", "compute_adjacent_cell_bridge", "cell_to_cell_bridge",
+    "is_face_on_border_bridge", "is_face_on_border_star_bridge", "boundary_faces_bridge", "boundary_vertices_bridge", "boundary_edges_bridge",
+    "border_lists_bridge", "is_vertex_on_border_bridge",
+    # round 4: headline theorems restated on the definitions compiled from the source
+    "face_to_cells_source_eq_spec", "cell_to_face_source_opposite", "cell_to_cell_source_eq_spec", "vertex_to_cell_source_eq_spec",
+    "boundary_faces_source_iff_one_cell", "boundary_vertices_edges_source_eq_spec", "edge_sets_source_eq_spec",
+    # round 4, part B: the edge-umbrella hypotheses derived from a decidable predicate
+    "edge_to_cell_order_of_umbrella",
+    # round 4, part B: value-level staleness / clear() as a history theorem over the translated guard table
+    "volume_no_stale_read_after_clear", "volume_stale_read_without_clear",
 ]
 
 TRUSTED = [
@@ -49,6 +62,13 @@ TRUSTED = [
     "hand-written model Mouette/Model/Volume.lean of mouette/mesh/datatypes/volume.py and processing/border.py:"
     "extract_boundary_of_volume, tied to the code by the correspondence of this run (all accessors × all elements, "
     "shuffled histories) and by the translated fragments (face table, sub-face slice, orientation rule, guard table)",
+    "round 4: the BODIES of _compute_cell_adj / _compute_connectivity / _compute_edge_id / _compute_adjacent_cell, of the accessors "
+    "face_to_cells / cell_to_face / vertex_to_cell / cell_to_cell, of is_face_on_border / is_vertex_on_border, of "
+    "_compute_interior_boundary_faces/_vertices/_edges and of the six border-list properties are compiled statement by statement "
+    "(vlib/props/c03_source.py -> Generated/C03S.lean) and PROVED equal to the hand model (Props/C03Source.lean: *_bridge) for every "
+    "tetrahedral mesh; trusted there: the container vocabulary lean/Mouette/Model/VolSource.lean (dict of lists = list indexed by key, "
+    "set = insertion log observed through eraseDups, Attribute = association list), the inherited face_id / edge_id / face_to_edges "
+    "(Mesh.faceIdD / edgeIdD / faceToEdges: C01's subject), and the compiler itself",
     "translator vlib/props/c03_translate.py (Python ast → Lean terms): guard/read/call/write events are taken in source "
     "order and every branch is assumed to execute; reads inside a try/except-Exception body are not events; `self.<property>` is a call",
     "the prepared containers (faces, edges) are inputs of the model; their completeness is a checked hypothesis "
@@ -329,7 +349,7 @@ def _observe_vol(case):
         obs[sec] = [ans[(sec, i)] for i in range(n)]
     import numpy as np
     I = (lambda i: np.int64(i)) if case.get("npargs") else (lambda i: i)
-    obs["OFS"] = [[_norm(_call(c.other_face_side, I(k), I(f))) for f in (obs["C2F"][k] if isinstance(obs["C2F"][k], list) else [])]
+    obs["OFS"] = [[_norm(_call(lambda k=k, f=f: c.other_face_side(I(k), I(f)))) for f in (obs["C2F"][k] if isinstance(obs["C2F"][k], list) else [])]
                   for k in range(nC)]
     obs["CF"] = [_norm(_call(c.common_face, I(a), I(b))) for a, b in case["pairs"]]
     obs["ICF"] = [_norm(_call(c.in_cell_face_index, I(a), I(min(b, nF - 1)))) for a, b in case["cf"]]
@@ -1078,8 +1098,61 @@ def search_on_break(rng, broken, mismatches):
     return out
 
 
+# ------------------------------------------------------------------------------------------------
+# SOURCE_MAP: every function of the anchor files -> how it is tied to the check
+#   translated  : a definition of Generated/C03S.lean (or the guard table of Generated/C03.lean) is compiled from the BODY on every
+#                 run and a bridge theorem of Props/C03Source.lean (or a theorem over the table) uses it
+#   modelled    : hand-written in Model/Volume.lean / Model/VolLazy.lean, tied by the correspondence run (+ fragment sites where noted)
+# ------------------------------------------------------------------------------------------------
+def _source_map():
+    V, B, D = "mouette/mesh/datatypes/volume.py::", "mouette/processing/border.py::", "mouette/mesh/mesh_data.py::RawMeshData."
+    m = {}
+    for q in c03_source.TRANSLATED: m[V + q] = "translated"
+    # whole body = the events of the guard table (super().__init__/clear + `self._x = None` stores); theorems
+    # volumeGuards_init_covers_caches / volumeGuards_clear_restores_fresh speak about the extracted table
+    m[V + "VolumeMesh._Connectivity.__init__"] = "translated"
+    m[V + "VolumeMesh._Connectivity.clear"] = "translated"
+    C = V + "VolumeMesh._Connectivity."
+    for q, note in (("_sort_edge_neighborhoods", "walk-loop shape (restart, key steps, stop test) re-extracted; walk itself hand-modelled (Conn.walk / sortEdge)"),
+                    ("n_F2C", "guard table only (len of face_to_cells)"), ("other_face_side", "Conn.otherFaceSide"), ("common_face", "Mesh.commonFace"),
+                    ("cell_to_vertex", "Mesh.cell"), ("in_cell_index", "Mesh.inCellIndex"), ("in_cell_face_index", "Mesh.inCellFaceIndex"),
+                    ("edge_to_face", "Conn.edgeToCellFace"), ("cell_to_edge", "Mesh.cellToEdge"), ("edge_to_cell", "Conn.edgeToCellFace")):
+        m[C + q] = "modelled: " + note
+    M = V + "VolumeMesh."
+    for q, note in (("__init__", "events of the body in the translated mesh guard table (meshGuards)"),
+                    ("enable_boundary_connectivity", "mesh guard table"), ("boundary_mesh", "mesh guard table; identity with boundary_connectivity.mesh by the oracle"),
+                    ("id_vertices", "List.range nV"), ("id_edges", "List.range nE"), ("id_faces", "List.range nF"), ("id_cells", "List.range nC"),
+                    ("is_vertex_on_border", "Conn.isVertexOnBorder (the flags it reads are translated)"),
+                    ("is_edge_on_border", "Conn.isEdgeOnBorder (the flags it reads are translated)"),
+                    ("is_cell_tet", "Mesh.isTetrahedral"), ("is_tetrahedral", "Mesh.isTetrahedral"),
+                    ("interior_edges", "guarded read of a translated list"), ("boundary_edges", "guarded read of a translated list"),
+                    ("boundary_vertices", "guarded read of a translated list"), ("interior_vertices", "guarded read of a translated list")):
+        m.setdefault(M + q, "modelled: " + note)
+    m[M + "__str__"] = "out-of-scope: display only"
+    m[M + "id_corners"] = "out-of-scope: face corners are not part of the volume connectivity statement"
+    BC = V + "VolumeMesh._BoundaryConnectivity."
+    m[BC + "__init__"] = "modelled: Conn.m2bEdgeTable; edge-map domain and the per-instance rebinding of the six maps re-extracted"
+    m[BC + "_extract_surface_boundary"] = "modelled: Conn.boundarySurface / m2bVertex / m2bFace; orientation rule re-extracted (bcOrient)"
+    for q in ("vertex_to_vertices", "vertex_to_edges", "vertex_to_faces", "face_to_vertices", "in_face_index", "face_to_edges", "face_to_faces"):
+        m[BC + q] = "out-of-scope: wrapper composing the index maps with the SurfaceMesh accessors (C01's subject); not named by the statement"
+    m[BC + "vertex_to_face_quad"] = "out-of-scope: raises NotImplementedError"
+    for q in ("extract_border_cycle", "extract_border_cycle_all", "extract_boundary_of_surface"):
+        m[B + q] = "out-of-scope: surface-mesh border functions (C15)"
+    m[B + "extract_boundary_of_volume"] = "modelled: Conn.boundarySurface with the standalone flip; orientation rule re-extracted (sbOrient)"
+    for q in ("_generate_cell_faces", "_complete_faces_from_cells"):
+        m[D + q] = "modelled: tetra face table re-extracted (completedTable / cellFacesTable, read-only; the function belongs to C02)"
+    for q in ("__init__", "id_vertices", "id_edges", "id_faces", "id_cells", "id_facecorners", "id_cellcorners", "dimensionality",
+              "_compute_dimensionality", "prepare", "_prepare_vertices", "_prepare_edges", "_prepare_edges.is_valid", "_prepare_faces",
+              "_generate_face_corners", "_prepare_cells", "_generate_cell_corners", "_complete_edges_from_faces"):
+        m[D + q] = "out-of-scope: RawMeshData preparation is C02's subject; its result (face/edge containers) is a checked hypothesis (`conforming`) here"
+    return m
+
+
+SOURCE_MAP = _source_map()
+
+
 def translate():
-    return c03_translate.run()
+    return c03_translate.run() + c03_source.run()
 
 
 MANIFEST = {
@@ -1092,7 +1165,12 @@ MANIFEST = {
                    "no history of lazy queries can read a missing or None cache (guard-table state machine, finite reachable set checked by "
                    "decide over the table translated from the source, induction over histories). Translated fragments: tetra face table, "
                    "sub-face slice, orientation rule of both extractors, guard table with the __init__/clear attribute sets. The model is tied "
-                   "to the code by a correspondence over all accessors × all elements in shuffled histories and a brute-force oracle."),
+                   "to the code by a correspondence over all accessors × all elements in shuffled histories and a brute-force oracle. "
+                   "Round 4: the bodies of the four _compute_* methods, of the cache accessors, of is_face_on_border / is_vertex_on_border and of the "
+                   "border/interior computations of VolumeMesh are compiled from the working tree on every run into state-passing Lean definitions "
+                   "and proved equal to the model (bridge theorems), so the connectivity / border theorems are restated on what the source says; "
+                   "the edge-umbrella hypotheses of the rotational-order theorem follow from a decidable predicate; no stale read after clear() "
+                   "for every history with in-place changes of the cells (stamped guard-table machine), and a stale read without clear() is exhibited."),
     "level_note": ("Trusted: Lean kernel + propext/Classical.choice/Quot.sound; the hand-written model (checked against the code on the meshes "
                    "of each run only); the ast translator; prepared face/edge containers as checked hypotheses (C02). Proved under explicit walk hypotheses: "
                    "rotational order of edge_to_cell / edge_to_face (the edge-umbrella hypothesis - the two walks reach every cell / face "
